@@ -75,6 +75,10 @@ type transCfg struct {
 	// (whatever was returned), Some v = the value of sliceVar.  No check on
 	// the function's final return is made (sliceRes is ignored).
 	sliceEarly bool
+	// stateOut: fields of the receiver (by source text, each also a parameter)
+	// that the body may assign; their final values are appended to every
+	// result tuple (a method without results yields just these).
+	stateOut []string
 }
 
 // ---------------------------------------------------------------- types
@@ -734,6 +738,9 @@ func (t *tr) expr(e ast.Expr) (string, string) {
 	src := t.p.src(e)
 	if ps, ok := t.psrc[src]; ok {
 		if _, isId := e.(*ast.Ident); !isId || t.lookup(src) == nil {
+			if v := t.lookup(src); v != nil {
+				return v.coq, v.typ
+			}
 			return ps.name, normT(ps.typ)
 		}
 	}
@@ -1292,7 +1299,14 @@ func (t *tr) assigned(nodes ...ast.Node) []string {
 	seen := map[string]bool{}
 	add := func(e ast.Expr) {
 		id, ok := e.(*ast.Ident)
-		if !ok || id.Name == "_" || seen[id.Name] {
+		if !ok {
+			if src := t.p.src(e); t.isState(src) && !seen[src] {
+				seen[src] = true
+				out = append(out, src)
+			}
+			return
+		}
+		if id.Name == "_" || seen[id.Name] {
 			return
 		}
 		if t.lookup(id.Name) == nil {
@@ -1480,6 +1494,8 @@ func (t *tr) stmts(ss []ast.Stmt, k kont) string {
 		v := (*lvar)(nil)
 		if ok {
 			v = t.lookup(id.Name)
+		} else if src := t.p.src(x.X); t.isState(src) {
+			v = t.lookup(src)
 		}
 		if v == nil || !isIntT(v.typ) {
 			t.fail(x, "++/--")
@@ -1553,6 +1569,21 @@ func (t *tr) ret(x *ast.ReturnStmt) string {
 }
 
 func (t *tr) ret0(x *ast.ReturnStmt) string {
+	if n := len(t.cfg.stateOut); n > 0 {
+		if len(x.Results) != len(t.res)-n {
+			t.fail(x, "return arity")
+			return "GoUnknown"
+		}
+		var rs []string
+		for i, r := range x.Results {
+			rs = append(rs, t.exprAs(r, t.res[i]))
+		}
+		rs = append(rs, t.stateVals()...)
+		if len(rs) == 1 {
+			return rs[0]
+		}
+		return "(" + strings.Join(rs, ", ") + ")"
+	}
 	if len(t.res) == 0 {
 		if len(x.Results) != 0 {
 			t.fail(x, "return with values")
@@ -1588,6 +1619,9 @@ func (t *tr) assign(x *ast.AssignStmt) string {
 	lhsName := func(e ast.Expr) (string, bool) {
 		id, ok := e.(*ast.Ident)
 		if !ok {
+			if src := t.p.src(e); t.isState(src) {
+				return src, true
+			}
 			return "", false
 		}
 		return id.Name, true
@@ -1676,6 +1710,29 @@ func (t *tr) assign(x *ast.AssignStmt) string {
 	}
 	t.fail(x, "assignment")
 	return ""
+}
+
+// isState: src names a field listed in cfg.stateOut (assignable).
+func (t *tr) isState(src string) bool {
+	for _, s := range t.cfg.stateOut {
+		if s == src {
+			return true
+		}
+	}
+	return false
+}
+
+func (t *tr) stateVals() []string {
+	var vs []string
+	for _, s := range t.cfg.stateOut {
+		if v := t.lookup(s); v != nil {
+			vs = append(vs, v.coq)
+		} else {
+			t.fail(nil, "state "+s+" is not a parameter")
+			vs = append(vs, "GoUnknown")
+		}
+	}
+	return vs
 }
 
 func (t *tr) simple(s ast.Stmt) string {
@@ -2046,6 +2103,9 @@ func (g *codeGen) translateFunc(p *pkg, dir, recv, name string, cfg transCfg) (s
 			t.scopes[0][ps.src] = &lvar{coq: cn, typ: ty}
 		} else {
 			t.psrc[ps.src] = ps
+			if t.isState(ps.src) {
+				t.scopes[0][ps.src] = &lvar{coq: cn, typ: ty}
+			}
 		}
 		sig = append(sig, "("+cn+" : "+ct+")")
 		fi.params = append(fi.params, ty)
@@ -2065,6 +2125,14 @@ func (g *codeGen) translateFunc(p *pkg, dir, recv, name string, cfg transCfg) (s
 			}
 		}
 	}
+	for _, so := range cfg.stateOut {
+		v := t.lookup(so)
+		if v == nil {
+			t.fail(nil, "state "+so+" is not a parameter")
+			continue
+		}
+		t.res = append(t.res, v.typ)
+	}
 	fi.res = tupleT(t.res)
 	rct := t.resCoqType()
 	if rct == "" {
@@ -2081,6 +2149,9 @@ func (g *codeGen) translateFunc(p *pkg, dir, recv, name string, cfg transCfg) (s
 				return "Some tt"
 			}
 			return "tt"
+		}
+		if len(cfg.stateOut) > 0 && len(t.res) == len(cfg.stateOut) {
+			return t.ret(&ast.ReturnStmt{})
 		}
 		t.fail(nil, "function may end without return")
 		return "GoUnknown"
